@@ -232,6 +232,20 @@ func run(id, mode string, rest []string) int {
 	}
 	wg.Wait()
 
+	// regression tier: saved cases (shrunk failures of earlier runs, kept
+	// under /verif/regress) are fed straight to the oracle
+	var regressViolations []violation
+	regressFiles, _ := filepath.Glob(filepath.Join(root(), "regress", id+"-*"))
+	sort.Strings(regressFiles)
+	for _, rf := range regressFiles {
+		c := exec.Command(bin, "-test.run", "^TestReplay$", "-test.timeout", "10m")
+		c.Dir = filepath.Join(hdir, pkg)
+		c.Env = append(goEnv(), "VERIF_REPLAY="+rf, "VERIF_ROOT="+root())
+		if out, err := c.CombinedOutput(); err != nil {
+			regressViolations = append(regressViolations, violation{Part: "regress", Message: tail(string(out), 8), Replay: rf})
+		}
+	}
+
 	// native fuzzing (thorough tier only): every Fuzz function of the package
 	// runs for VERIF_FUZZTIME (default 45s) on all cores; its oracle is inside
 	// the target.  Native fuzzing cannot be seeded, so a crasher file is the
@@ -338,6 +352,7 @@ func run(id, mode string, rest []string) int {
 	}
 	sort.Strings(partOrder)
 	violations = append(violations, fuzzViolations...)
+	violations = append(violations, regressViolations...)
 
 	var totalEvals int64
 	totalNT := 0
@@ -424,6 +439,7 @@ func run(id, mode string, rest []string) int {
 		}
 	}
 
+	regressNote := fmt.Sprintf("%d saved regression cases replayed", len(regressFiles))
 	evidence := map[string]any{
 		"property_id": id,
 		"tier":        tier,
@@ -439,6 +455,7 @@ func run(id, mode string, rest []string) int {
 			"shards":              nshards,
 			"known_findings":      knownList,
 			"problems":            problems,
+			"regress":             regressNote,
 		},
 		"assumptions": assumptions,
 		"wall_s":      time.Since(start).Seconds(),
